@@ -484,8 +484,17 @@ func (w *world) apply(op Op, closeFails map[int]bool) Obs {
 		for i, x := range op.IDs {
 			ids[i] = nid(x)
 		}
-		err := w.b.RegisterPipeline(el.Pipeline{PipelineID: pid(op.Pid), EventType: ety(op.Ety), NodeIDs: ids}, polOpt(op.Pol, false)...)
+		opts := polOpt(op.Pol, false)
+		err := w.b.RegisterPipeline(el.Pipeline{PipelineID: pid(op.Pid), EventType: ety(op.Ety), NodeIDs: ids}, opts...)
 		o.Ok, o.Err = err == nil, err != nil
+		// the definition and the option list are the caller's: the caller reuses them (a template buffer) as soon as the
+		// call has returned - the registry must not have kept them
+		for i := range ids {
+			ids[i] = nid(1 + (i+op.Pid)%4)
+		}
+		for i := range opts {
+			opts[i] = nil
+		}
 	case "rmpipe":
 		err := w.b.RemovePipeline(ety(op.Ety), pid(op.Pid))
 		o.Ok, o.Err = err == nil, err != nil
